@@ -1082,17 +1082,25 @@ class FortranFile:
         if backward:
             if self.fixed:  # Fixed format file
                 tmp_line = curr_line
+                tmp_ind = None  # index of tmp_line in pre_lines, None: curr_line
                 while line_ind > 0:
-                    if FRegex.FIXED_CONT.match(tmp_line):
-                        prev_line = tmp_line
-                        tmp_line = self.get_line(line_ind, pp_content)
-                        if line_ind == line_no - 1:
-                            curr_line = " " * 6 + curr_line[6:]
-                        else:
-                            pre_lines[-1] = " " * 6 + prev_line[6:]
-                        pre_lines.append(tmp_line)
-                    else:
+                    if not FRegex.FIXED_CONT.match(tmp_line):
                         break
+                    if tmp_ind is None:
+                        curr_line = " " * 6 + curr_line[6:]
+                    else:
+                        pre_lines[tmp_ind] = " " * 6 + tmp_line[6:]
+                    tmp_line = self.get_line(line_ind, pp_content)
+                    # Comment and blank lines may stand between a line and its
+                    # continuation: keep a placeholder and look further
+                    while line_ind > 0 and (
+                        FRegex.FIXED_COMMENT.match(tmp_line) or tmp_line.strip() == ""
+                    ):
+                        pre_lines.append("")
+                        line_ind -= 1
+                        tmp_line = self.get_line(line_ind, pp_content)
+                    pre_lines.append(tmp_line)
+                    tmp_ind = len(pre_lines) - 1
                     line_ind -= 1
             else:  # Free format file
                 opt_cont_match = FRegex.FREE_CONT.match(curr_line)
